@@ -66,13 +66,19 @@ def load_findings():
 
 
 # ------------------------------------------------------------------ worker
+RLIMIT_PER_MS = 4000   # about one millisecond of z3 work on an idle core of this sandbox
+
+
 def solve_text(text, timeout_ms, use_cvc5=True):
     """z3 E-matching only (short), then z3 with MBQI, then cvc5, on the SMT-LIB text of one VC."""
     t0 = time.time()
     res, model, backend, reason = "unknown", None, "z3", ""
     for mbqi, tmo in ((False, min(timeout_ms, 4000)), (True, timeout_ms)):
         s = z3.Solver()
-        s.set("timeout", tmo)
+        # deterministic resource budget (verdicts must not flip when the machine is loaded);
+        # the wall-clock limit is only a generous safety net
+        s.set("rlimit", tmo * RLIMIT_PER_MS)
+        s.set("timeout", tmo * 12)
         if not mbqi:
             s.set("smt.mbqi", False)
         s.from_string(text)
@@ -102,7 +108,7 @@ def gen_unit(job):
     load_specs()
     con = REGISTRY[target]
     sc = sigcases(con)[sc_index]
-    out = {"target": target, "sc_index": sc_index, "case": None, "vcs": [], "undecided": None, "paths": 0,
+    out = {"target": target, "sc_index": sc_index, "case": None, "in_case": case, "vcs": [], "undecided": None, "paths": 0,
            "assumptions": [], "src": None, "gen_s": 0.0, "cuts": []}
     t0 = time.time()
     try:
@@ -129,28 +135,43 @@ def gen_unit(job):
 
 def solve_unit(job):
     """Discharge one VC; on sat / unknown look for a replayable input of the real function."""
-    name, kind, size, text, tier, target, sc_index, seed = job
+    name, kind, size, text, tier, target, sc_index, seed, case = job
     _setup_path()
     load_specs()
     timeout_ms = 10000 if tier == "quick" else 60000
     res, model, backend, reason, t = solve_text(text, timeout_ms)
     rec = {"name": name, "kind": kind, "status": res, "backend": backend, "time": round(t, 3), "size": size,
            "reason": reason if res == "unknown" else ""}
-    if res in ("refuted", "unknown"):
+    if res == "refuted":
         con = REGISTRY[target]
         sc = sigcases(con)[sc_index]
-        rp = replay_refutation(con, sc, name, model, seed, any_label=(res == "unknown"))
-        if res == "refuted":
-            rec["replay"] = rp
-        elif rp.get("reproduced"):
-            # no verdict from the solver, but a concrete witness of a contract failure of this function
-            rec["status"] = "refuted"
-            rec["backend"] = "native-search"
-            rec["replay"] = rp
+        rec["replay"] = replay_refutation(con, sc, name, model, seed, case=case)
     return rec
 
 
-def replay_refutation(con, sc, obname, model, seed, any_label=False):
+def search_unit(job):
+    """The solver gave no verdict on some VC of this function: look once for a concrete input on which
+    the real function breaks its contract (any clause).  Only a replayed witness makes it a violation."""
+    target, sc_index, seed, case = job
+    _setup_path()
+    load_specs()
+    con = REGISTRY[target]
+    sc = sigcases(con)[sc_index]
+    return replay_refutation(con, sc, f"{target}/*", None, seed, any_label=True, case=case)
+
+
+def _in_case(con, case, argvals):
+    if case is None:
+        return True
+    from .spec import Args
+    try:
+        pre = Args({k: native.nview(v) for k, v in argvals.items()})
+        return bool(con.cases[case](pre))
+    except Exception:  # noqa
+        return True
+
+
+def replay_refutation(con, sc, obname, model, seed, any_label=False, case=None):
     """Concretise the counter-model, run the real function, evaluate the clause natively.
     Falls back to a small-scope native search for a witness of the same clause."""
     info = {"obligation": obname, "reproduced": False, "input": None, "observed": None, "model": None,
@@ -165,7 +186,7 @@ def replay_refutation(con, sc, obname, model, seed, any_label=False):
             info["observed"] = nr.outcome
             info["in_domain"] = nr.in_domain
             hits = [f for f in nr.failures if f[0] == label]
-            if nr.in_domain and hits:
+            if nr.in_domain and hits and _in_case(con, case, argvals):
                 info["reproduced"] = True
                 info["failure"] = hits[0]
                 info["argvals"] = _jsonable(argvals)
@@ -181,6 +202,8 @@ def replay_refutation(con, sc, obname, model, seed, any_label=False):
             tried += 1
             if tried > 3000:
                 break
+            if not _in_case(con, case, argvals):
+                continue
             nr = native.native_eval(con, argvals)
             if not nr.in_domain:
                 continue
@@ -281,9 +304,24 @@ def run_property(pid, tier="quick", seed=0, jobs=None):
                 results.append(u)
                 for vc in u.pop("vcs"):
                     sfuts.append((u, ex.submit(solve_unit, (vc["name"], vc["kind"], vc["size"], vc["text"], tier,
-                                                            u["target"], u["sc_index"], seed))))
+                                                            u["target"], u["sc_index"], seed, u["in_case"]))))
             for u, f in sfuts:
                 u["obligations"].append(f.result())
+            # one native witness search per function that has undecided VCs
+            need = {}
+            for u in results:
+                if any(o["status"] == "unknown" for o in u.get("obligations", [])):
+                    need.setdefault((u["target"], u["sc_index"], u["in_case"]), []).append(u)
+            nf = {k: ex.submit(search_unit, (k[0], k[1], seed, k[2])) for k in need}
+            for k, f in nf.items():
+                rp = f.result()
+                if rp.get("reproduced"):
+                    for u in need[k]:
+                        for o in u["obligations"]:
+                            if o["status"] == "unknown":
+                                o["status"] = "refuted"
+                                o["backend"] = "native-search"
+                                o["replay"] = rp
             for f in cfuts:
                 cross.append(f.result())
     extras = []
@@ -384,6 +422,8 @@ def assemble(pid, tier, seed, cons, results, cross, extras, known, findings, wal
             cl = labels.get(lab)
             if cl is not None and pid not in cl.props:
                 continue
+            if cl is None and con.raises_props is not None and pid not in con.raises_props:
+                continue
             violations.append({"kind": "native", "name": f"{c['target']}/{f['label']}", "replay": {
                 "reproduced": True, "input": f["input"], "observed": f["observed"], "failure": [f["label"], f["detail"]],
                 "argvals": f["argvals"], "in_case": f.get("in_case"),
@@ -430,7 +470,15 @@ def assemble(pid, tier, seed, cons, results, cross, extras, known, findings, wal
         if fn.startswith(pid + "_"):
             os.unlink(os.path.join(ROOT, "replay", fn))
     exit_code = 0
-    for i, v in enumerate(unlisted):
+    seen_v = set()
+    dedup = []
+    for v in unlisted:
+        key = (v.get("name") or "").split("/path:")[0]
+        if key in seen_v:
+            continue
+        seen_v.add(key)
+        dedup.append(v)
+    for i, v in enumerate(dedup):
         path = os.path.join(ROOT, "replay", f"{pid}_{i}.json")
         rp = v.get("replay") or {}
         with open(path, "w") as f:
